@@ -761,7 +761,7 @@ def campaign(run: Run, tier, seed, which, cases_override=None):
     if tier != 'quick' and cases_override is None:
         # small scope: every pair of stimuli after every prefix that reaches OPENSENT or later
         small = [['recv', k] for k in ('OpenOk', 'Keepalive', 'UpdateOk', 'Notification', 'UnknownType', 'OpenBadAs', 'UpdateBadNlri', 'Refresh')] + [
-            ['eof', None], ['incoming', None], ['connect_ok', None], ['tick', 0.3], ['silence', 70], ['teardown', 4], ['remove', None], ['refresh', None]]
+            ['eof', None], ['incoming', None], ['connect_ok', None], ['tick', 0.3], ['silence', 70], ['teardown', 4], ['remove', None], ['refresh', None], ['reload', None]]
         for pname in ('RO', 'RK', 'M0', 'MN', 'ROdead', 'Wacc'):
             for a in small:
                 for b in small:
